@@ -352,3 +352,7 @@ def run(ctx):
     rule_uridict(ctx, "R20.6")
     rule_selection_total(ctx)
     rule_resolver_id_key(ctx)
+    # R20.9: "an explicitly given class always wins" includes its schema check: check_schema validates with the class it is called
+    # on, not with whatever the metaschema's own $schema would select
+    from .c11 import rule_wiring
+    rule_wiring(ctx, "R20.9")
